@@ -169,7 +169,11 @@ theorem query_pack_unpack (sz : Nat) (host : Bytes) (labels : List Bytes) (qid q
       unfold buildQuery
       simp only [he, ↓reduceIte, hb1, queryHeader_length, hqp, hql, hopt, hol, this]
     refine ⟨_, hbuild, by simp [he], ?_, rfl, rfl, rfl, ?_⟩
-    · simp [he, queryHeader_length, hql, hol]; omega
+    · show (headerBytes (queryHeader qid 1) ++ (wire labels ++ [0] ++ be16 (qtype % 65536) ++ be16 classIN) ++
+          optBytes edns.toNat).length = _
+      rw [List.length_append, List.length_append, queryHeader_length, hql, hol]
+      simp only [he, ↓reduceIte]
+      omega
     · simp only [he, ↓reduceIte]
       have := query_packet_decodes labels qid 1 (qtype % 65536) (optBytes edns.toNat) hlab hfit (by decide) hqt
       simpa [List.append_assoc] using this
@@ -181,7 +185,10 @@ theorem query_pack_unpack (sz : Nat) (host : Bytes) (labels : List Bytes) (qid q
       unfold buildQuery
       simp only [he, ↓reduceIte, hb0, queryHeader_length, hqp, hql, this]
     refine ⟨_, hbuild, by simp [he], ?_, rfl, rfl, rfl, ?_⟩
-    · simp [he, queryHeader_length, hql]; omega
+    · show (headerBytes (queryHeader qid 0) ++ (wire labels ++ [0] ++ be16 (qtype % 65536) ++ be16 classIN)).length = _
+      rw [List.length_append, queryHeader_length, hql]
+      simp only [he, ↓reduceIte]
+      omega
     · simp only [he, ↓reduceIte]
       have := query_packet_decodes labels qid 0 (qtype % 65536) [] hlab hfit (by decide) hqt
       simpa [List.append_assoc] using this
